@@ -143,6 +143,15 @@ def gen_request(rng):
         line, size = bytesgen.titan_line(rng)
         n = rng.choice([size, size, size, max(0, size - 1), size + 3, 0])
         return line.encode() + b"\r\n" + bytesgen.content_bytes(rng, n), f"titan:content={'full' if n >= size else 'short'}"
+    if r < 0.52:
+        # Titan parameters at the edge of what fits in a request line: sizes of tens to hundreds of digits (Python ints
+        # have no upper bound, floats do), zero-padded sizes, very long media types and tokens, parameters given twice
+        digits = rng.choice([19, 20, 40, 100, 308, 309, 310, 320, 400, 900])
+        size_txt = rng.choice(["9" * digits, "1" + "0" * (digits - 1), "0" * (digits - 1) + "5", str(2**63), str(2**64), str(10**308), str(10**309), "1e5", "٣", "+5", " 5", "5 "])
+        extra = rng.choice(["", ";mime=text/plain", ";mime=" + "a/" + "b" * rng.choice([200, 600, 900]), ";token=" + "t" * rng.choice([300, 800]), ";size=3", ";mime=text/plain;mime=image/png"])
+        line = f"titan://example.org/up{extra if rng.random() < 0.3 else ''};size={size_txt}{extra}"
+        body = rng.choice([b"", b"abc", b"abcde"])
+        return line.encode() + b"\r\n" + body, "titan:extreme-parameters"
     if r < 0.85:
         data, label = bytesgen.corrupt(rng)
         return data, "corrupt:" + label.split(":")[0]
